@@ -298,6 +298,7 @@ type c20Bolt struct {
 	dir string
 	bc  *core.Blockchain
 	tb  *c20TB
+	st  storage.Store // the LevelDB handle under the node's write cache
 }
 
 func c20BoltCfg(c *config.Blockchain) {
@@ -323,7 +324,7 @@ func c20OpenBolt(dir string) (*c20Bolt, error) {
 		return nil, fmt.Errorf("blockchain does not open: %v", perr)
 	}
 	go bc.Run() // Close() hands over to the Run loop, which flushes and closes the database
-	return &c20Bolt{dir: dir, bc: bc, tb: tb}, nil
+	return &c20Bolt{dir: dir, bc: bc, tb: tb, st: st}, nil
 }
 
 func (b *c20Bolt) close() { b.bc.Close() }
@@ -339,7 +340,7 @@ func (b *c20Bolt) reopen() error {
 	if err != nil {
 		return err
 	}
-	b.bc, b.tb = nb.bc, nb.tb
+	b.bc, b.tb, b.st = nb.bc, nb.tb, nb.st
 	return nil
 }
 
